@@ -132,6 +132,7 @@ class DefRuntime:
             nsp = {}  # type: Dict[str, Any]
             for m in st["members"]:
                 nsp[m["name"]] = self.build_member(m)
+            nsp["__module__"] = st.get("mod", "app.models")
             bases = tuple(self.classes[b] for b in st["bases"])
             if st["dbc"]:
                 if not bases:
@@ -194,6 +195,16 @@ class DefRuntime:
             v["members"][name] = {"kind": kind, "pre": pre, "snap": snap, "post": post, "invw": bool(invw),
                                   "nchk": facts["checkers"], "nfor": facts["foreign"]}
         return v
+
+    def member_list_ids(self, k: int, name: str) -> List[int]:
+        kind, fn = self.member_fn(self.classes[k], name)
+        if fn is None:
+            return []
+        chk = self.ic._checkers.find_checker(fn)
+        if chk is None:
+            return []
+        return [id(chk.__preconditions__), id(chk.__postcondition_snapshots__), id(chk.__postconditions__)] + \
+               [id(g) for g in chk.__preconditions__]
 
     def alias(self, k: int) -> List[int]:
         cls = self.classes[k]
@@ -290,6 +301,13 @@ def replay_history(hist: dict, expected: Dict[int, dict], ic: Any) -> List[dict]
             exp_alias = _partition([list(a) if rt.ok.get(j + 1) else [0, 0, 0] for j, a in enumerate(exp["alias"])])
             if act_alias != exp_alias:
                 divergences.append({"step": k, "clause": "def.shared_mutable_list", "exp": exp_alias, "act": act_alias})
+            if "lids" in exp:
+                act_l = _partition([rt.member_list_ids(j, nm) if rt.ok.get(j) else [] for j in range(1, k + 1)
+                                    for nm in hist["names"]])
+                exp_l = _partition([list((exp["lids"][j - 1] or {}).get(nm, [])) if rt.ok.get(j) else []
+                                    for j in range(1, k + 1) for nm in hist["names"]])
+                if act_l != exp_l:
+                    divergences.append({"step": k, "clause": "def.shared_mutable_list", "exp": exp_l, "act": act_l})
             reg = [int(c.__name__[1:]) for c in calls if c.__name__.startswith("K")]
             if reg != list(exp["regd"]):
                 divergences.append({"step": k, "clause": "def.registered_count", "exp": list(exp["regd"]), "act": reg})
